@@ -20,6 +20,13 @@ its own moment (no stale partition).
 Precision (op 'precision'): stdev of values that are large relative to their spread (1e9 + {.5,1,1.5},
 1790000001..3, 1e5 + {0,.05,.1}) through aggregate() and Vector.stdev() against an exact
 fractions.Fraction reference at relative tolerance 1e-9.
+Sequence-style apply functions (op 'seqapply'): eight custom functions that use their argument as a LIST
+(len(), indexing, slicing, reversed(), two passes - e.g. a two-pass variance) on every table of <= 3 rows
+(1 key), <= 2 rows (2 keys) and over=[]: each must give what it gives on the plain Python list of the
+group's values (None included, row order).
+Exact means (op 'exactmean'): mean of big ints (2**53+1, 2**53+3, 1), Fraction, Decimal and float
+columns through aggregate(mean_over) and Vector.mean() against Python's sum/len in the element type -
+exact wherever Python's `/` is exact (always for Fraction), relative 1e-12 otherwise.
 """
 from relational_common import *  # noqa
 
@@ -34,6 +41,8 @@ def cases(tier, seed):
     yield from agg_cases(tier, OP, heavy=False)
     yield from repeat_cases(tier, OP)
     yield from precision_cases(tier)
+    yield from seq_apply_cases(tier, OP)
+    yield from exactmean_cases(tier)
     for label, pool in WHOLE_POOLS:
         for n in range(1, 5):
             for combo in itertools.product(pool, repeat=n):
@@ -173,9 +182,85 @@ def eval_precision(case):
     return fails
 
 
+def eval_seqapply(case):
+    descr = f"aggregate(over={case['mode']} x{case['nk']}, apply=<functions that use their argument as a list>) on rows(keys..., v)={case['rows']}"
+    try:
+        s = SeqApplySetup(case)
+    except Exception as e:
+        return [Fail(f'{PID}:setup:raises:{type(e).__name__}', f'{descr}: building the table raised {e!r}', None, repr(e))]
+    before = s.snapshot()
+    site = agg_site(OP, case)
+    fails = []
+    try:
+        res = s.T.aggregate(s.over, **s.kwargs)
+    except Exception as e:
+        name = s.running[0]
+        cap = SEQ_APPLY[name][1] if name else 'outside-the-function'
+        return [Fail(f'{PID}:{site}:apply-sequence-argument:{cap}:raises:{type(e).__name__}',
+                     f'{descr}: raised {e!r}' + (f' while apply function {name!r} was using its argument as a list ({cap})' if name else ''),
+                     seq_apply_expected(OP, s.keys, s.vals), repr(e), f'{PID}:{OP}:apply')]
+    try:
+        m = truthful(res)
+        if m:
+            fails.append(Fail(f'C03:{OP}:truthful', f'{descr}: {m}', None, m))
+        check_seq_apply(PID, OP, site, res, seq_apply_expected(OP, s.keys, s.vals), fails, descr)
+    except Exception as e:
+        fails.append(Fail(f'{PID}:{site}:malformed-result', f'{descr}: result could not be read: {e!r}', None, repr(e)))
+    if s.snapshot() != before:
+        fails.append(Fail(f'{PID}:{site}:input-modified', f'{descr}: the table or a key vector changed', before, s.snapshot()))
+    return fails
+
+
+def eval_exactmean(case):
+    fails = []
+    fam = case['family']
+    vals = exactmean_vals(case)
+    keys, grows = exactmean_groups(case)
+    descr = f"mean of {vals!r} ({fam}, {case['layout']})"
+    try:
+        t = Table([Vector(list(keys), name='g'), Vector(list(vals), name='v')])
+        v = Vector(list(vals), name='v')
+    except Exception as e:
+        if all(x is None for x in vals):
+            return []
+        return [Fail(f'{PID}:setup:raises:{type(e).__name__}', f'{descr}: building the operands raised {e!r}', None, repr(e))]
+    try:
+        res = t.aggregate(over='g', mean_over='v')
+        col = out_column(res, 'v_mean')
+        m = truthful(res)
+        if m:
+            fails.append(Fail(f'C03:{OP}:truthful', f'{descr}: {m}', None, m))
+        if col is None or len(col) != len(grows):
+            fails.append(Fail(f'{PID}:{OP}:mean:{fam}:missing', f'{descr}: aggregate(mean_over) gave column {col!r}', len(grows), col))
+        else:
+            for g, rows in enumerate(grows):
+                bad = mean_verdict(fam, col[g], [vals[i] for i in rows])
+                if bad:
+                    fails.append(Fail(f'{PID}:{OP}:mean:{fam}:{bad[0]}', f'{descr}: aggregate(mean_over) gives {col[g]!r} for the group '
+                                      f'{[vals[i] for i in rows]!r}; sum/len of its non-None values is {bad[1]!r}', bad[1], col[g], f'{PID}:{OP}:mean:elem'))
+                    break
+    except Exception as e:
+        fails.append(Fail(f'{PID}:{OP}:mean:{fam}:raises:{type(e).__name__}', f'{descr}: aggregate(mean_over) raised {e!r}', None, repr(e), f'{PID}:{OP}:mean:elem'))
+    if any(x is not None for x in vals):
+        try:
+            got = v.mean()
+            bad = mean_verdict(fam, got, vals)
+            if bad:
+                fails.append(Fail(f'{PID}:Vector.mean:{fam}:{bad[0]}', f'Vector({vals!r}).mean() = {got!r}; sum/len of the non-None values is {bad[1]!r}',
+                                  bad[1], got, f'{PID}:lemma:whole-column'))
+        except Exception as e:
+            fails.append(Fail(f'{PID}:Vector.mean:{fam}:raises:{type(e).__name__}', f'Vector({vals!r}).mean() raised {e!r}', python_mean(vals), repr(e),
+                              f'{PID}:lemma:whole-column'))
+    return fails
+
+
 def evaluate(case):
     if case['op'] == 'whole':
         return eval_whole(case)
+    if case['op'] == 'seqapply':
+        return eval_seqapply(case)
+    if case['op'] == 'exactmean':
+        return eval_exactmean(case)
     if case['op'] == 'repeat':
         return eval_repeat(PID, case)
     if case['op'] == 'precision':
@@ -213,9 +298,13 @@ if __name__ == '__main__':
               'vector of length 1..4 over {None,1,2.5} and {None,0,1,2} with >=1 non-None; plus call histories on one table object '
               '(new external key vectors / key or value column overwritten through its live view between calls; every ordered '
               'pair of distinct 3-row key vectors and long runs) and stdev of large-offset values vs an exact Fraction reference '
-              '(relative 1e-9). distinct = distinct (nk, mode, rows, '
+              '(relative 1e-9); plus eight apply functions that use their argument as a list (len / index / slice / reversed / two passes) on '
+              'every small table, and mean of big-int / Fraction / Decimal / float columns vs Python sum/len in the element type (exact where '
+              '`/` is exact, else relative 1e-12) through aggregate and Vector.mean. distinct = distinct (nk, mode, rows, '
               'groups, interleaved, all-None group, None key, aggs, apply) signatures',
          bound=lambda tier: dict(agg_bound(tier), whole_column_pools=[p for _, p in WHOLE_POOLS], whole_column_max_len=4,
                                  repeat_variants=REPEAT_VARIANTS, repeat_key_vectors='{None,0,1}^3 ordered pairs; runs over ^3 and ^4',
-                                 precision_families=[f for f, _ in PRECISION_FAMILIES], precision_len=[2, 4 if tier == 'quick' else 5]),
+                                 precision_families=[f for f, _ in PRECISION_FAMILIES], precision_len=[2, 4 if tier == 'quick' else 5],
+                                 seq_apply_functions=SEQ_APPLY_NAMES, seq_apply_tables='1 key <=%d rows, 2 keys <=%d rows, over=[] <=%d rows' % ((3, 2, 3) if tier == 'quick' else (4, 3, 4)),
+                                 exact_mean_families={f: [repr(x) for x in p] for f, p in EXACT_MEAN_FAMILIES}, exact_mean_len=[1, 3 if tier == 'quick' else 4]),
          nontrivial=nontrivial)
